@@ -122,7 +122,7 @@ func (c *MockCollectionHandler) UpdateOne(filter map[string]interface{}, update 
 	for i, doc := range c.docs {
 		if matchesFilter(doc, filter) {
 			for k, v := range update {
-				doc[k] = v
+				doc[k] = copyValue(v)
 			}
 			c.docs[i] = doc
 			return 1, nil
@@ -140,7 +140,7 @@ func (c *MockCollectionHandler) UpdateMany(filter map[string]interface{}, update
 	for i, doc := range c.docs {
 		if matchesFilter(doc, filter) {
 			for k, v := range update {
-				doc[k] = v
+				doc[k] = copyValue(v)
 			}
 			c.docs[i] = doc
 			count++
@@ -235,11 +235,28 @@ func matchesFilter(doc, filter map[string]interface{}) bool {
 	return true
 }
 
-// copyDoc creates a shallow copy of a document.
+// copyDoc creates a copy of a document, nested documents and arrays included:
+// a copy that shared them with the stored document would let a caller that
+// changes what it was handed (or what it handed in) change the store.
 func copyDoc(doc map[string]interface{}) map[string]interface{} {
 	cp := make(map[string]interface{}, len(doc))
 	for k, v := range doc {
-		cp[k] = v
+		cp[k] = copyValue(v)
 	}
 	return cp
+}
+
+func copyValue(v interface{}) interface{} {
+	switch val := v.(type) {
+	case map[string]interface{}:
+		return copyDoc(val)
+	case []interface{}:
+		cp := make([]interface{}, len(val))
+		for i, elem := range val {
+			cp[i] = copyValue(elem)
+		}
+		return cp
+	default:
+		return v
+	}
 }
